@@ -3,6 +3,7 @@ Line-protocol driver of the C03 model (see harness/c03.cpp for the protocol).
 -/
 import TlxVerif.Model.Drv
 import TlxVerif.Model.C03Two
+import TlxVerif.Model.C03Trace
 import TlxVerif.Gen.C03Consts
 open TlxVerif TlxVerif.C03
 
@@ -58,19 +59,21 @@ def canonRuns : List (Nat × Str) → List Nat → List Nat → List Nat
     if x.2 = y.2 then canonRuns (y :: rest) (x.1 :: run) acc
     else canonRuns (y :: rest) [] ((x.1 :: run).mergeSort.reverse ++ acc)
 
+/-- the proved model: the out-of-place sorts run in their two-array form (active/shadow arrays,
+flipped flag) up to 4096 strings and in the (proved equal) list form above that -/
 def runAlgo (algo : String) (c : Consts) (wl : Bool) (depth : Nat) (ss : List (Nat × Str))
     (l : List Nat) (mem : Nat) : List (Nat × Str) × List Nat :=
   let str : Nat × Str → Str := Prod.snd
+  let two := ss.length ≤ 4096
   match algo with
   | "ins" => insertionSort str wl depth ss l
   | "mkqs" => multikeyQuicksort str c wl depth ss l mem
-  -- the out-of-place sorts run in their two-array form (active/shadow arrays, flipped flag)
-  | "CE0" => radixsortCE0Two str c wl depth ss l mem
-  | "CE2" => radixsortCE2Two str c wl depth ss l mem
-  | "CE3" => radixsortCE3Two str c wl depth ss l mem
+  | "CE0" => if two then radixsortCE0Two str c wl depth ss l mem else radixsortCE0 str c wl depth ss l mem
+  | "CE2" => if two then radixsortCE2Two str c wl depth ss l mem else radixsortCE2 str c wl depth ss l mem
+  | "CE3" => if two then radixsortCE3Two str c wl depth ss l mem else radixsortCE3 str c wl depth ss l mem
   | "CI2" => radixsortCI2 str c wl depth ss l mem
   | "CI3" => radixsortCI3 str c wl depth ss l mem
-  | _ => sortStringsTwo str c wl ss l mem
+  | _ => if two then sortStringsTwo str c wl ss l mem else sortStrings str c wl ss l mem
 
 def doSort (s : St) (algo rep lcpS memS depthS : String) : Option String := do
   let mem ← memS.toNat?
@@ -94,9 +97,28 @@ def doSort (s : St) (algo rep lcpS memS depthS : String) : Option String := do
   let ss : List (Nat × Str) := pool.zipIdx.map fun p => (p.2, p.1)
   let l0 : List Nat := if wl then (List.range n).map (3000000000 + ·) else []
   let (out, l) := runAlgo algo c wl depth ss l0 mem
+  -- the traced skeleton: branch coverage of this sort; up to 4096 strings it also has to
+  -- reproduce the result of the proved model
+  let small := n ≤ 4096 ∧ (pool.map List.length).sum ≤ 200000
+  let tr := Trace.runT (Prod.snd : Nat × Str → Str) (!small) algo c wl depth ss l0 mem
+  if small ∧ ¬ (tr.1.1.map Prod.fst = out.map Prod.fst ∧ tr.1.2 = l) then
+    pure "MODEL-TRACE-MISMATCH"
+  else
   let ord := if baseRep rep = "str" then canonRuns out [] [] else out.map Prod.fst
   let full := s!"ord={Drv.showCsv ord} lcp={if wl then Drv.showCsv l else "-"}"
-  pure (if n > 128 then s!"n={n} fnv={fnv full}" else full)
+  pure ((if n > 128 then s!"n={n} fnv={fnv full}" else full) ++ " #cov=" ++ Trace.showCov tr.2)
+
+/-- `sweep <algo> <rep> <lcp> <depth> <maxRuns>` (driver only, used by the generator before the
+correspondence): memory limits just below / at / above every fall-back threshold the model meets
+on this pool, each with the branch coverage it produces -/
+def doSweep (s : St) (algo rep lcpS depthS runsS : String) : Option String := do
+  let depth ← depthS.toNat?
+  let runs ← runsS.toNat?
+  let wl ← if lcpS = "1" then some true else if lcpS = "0" then some false else none
+  let c ← lookupConsts (baseRep rep) wl
+  let ss : List (Nat × Str) := s.pool.toList.zipIdx.map fun p => (p.2, p.1)
+  let r := Trace.sweep (Prod.snd : Nat × Str → Str) algo c depth ss runs
+  pure (" ".intercalate (r.map fun p => s!"{p.1}={p.2}"))
 
 def step (s : St) (ts : List String) : St × String :=
   match ts with
@@ -119,6 +141,10 @@ def step (s : St) (ts : List String) : St × String :=
                          offs := s.offs ++ (l.map fun (o : Nat) => Int.ofNat o).toArray }
       (s', s!"ok {s'.pool.size}")
     | _, _ => (s, "bad-op")
+  | ["sweep", algo, rep, lcpS, depthS, runsS] =>
+    match doSweep s algo rep lcpS depthS runsS with
+    | some a => (s, a)
+    | none => (s, "bad-op")
   | ["sort", algo, rep, lcpS, memS, depthS] =>
     match doSort s algo rep lcpS memS depthS with
     | some a => (s, a)
